@@ -690,6 +690,12 @@ fn ops_json(ops: &[VerifOp]) -> Vec<Value> {
             VerifOp::DocBegin { tokens } => json!(["DB", tokens.iter().map(|t| json!([tk(t.kind), t.range.start_offset, t.range.length])).collect::<Vec<_>>()]),
             VerifOp::DocEat { kind, range } => json!(["DE", tk(*kind), range.start_offset, range.length]),
             VerifOp::DocEnd => json!(["DX"]),
+            VerifOp::DocBump { skip } => json!(["PB", skip]),
+            VerifOp::DocEatLex => json!(["PE"]),
+            VerifOp::DocRecalcDetail => json!(["PD"]),
+            VerifOp::DocRecalcCast => json!(["PC"]),
+            VerifOp::DocSetKind(k) => json!(["PK", tk(*k)]),
+            VerifOp::DocLex { kind, range } => json!(["PL", tk(*kind), range.start_offset, range.length]),
         })
         .collect()
 }
